@@ -81,8 +81,14 @@ func ComputeEpochAttesterData(ctx context.Context, spec *common.Spec, epc *commo
 		if prevFlag&TIMELY_HEAD_FLAG != 0 {
 			out.PrevEpochUnslashedStake.HeadStake += effBal
 		}
+	}
+	// the current epoch's target stake is over the validators active in the current epoch
+	for _, vi := range epc.CurrentEpoch.ActiveIndices {
+		if flats[vi].Slashed {
+			continue
+		}
 		if currEpochParticipation[vi]&TIMELY_TARGET_FLAG != 0 {
-			out.CurrEpochUnslashedTargetStake += effBal
+			out.CurrEpochUnslashedTargetStake += flats[vi].EffectiveBalance
 		}
 	}
 	if out.PrevEpochUnslashedStake.SourceStake < spec.EFFECTIVE_BALANCE_INCREMENT {
